@@ -56,7 +56,7 @@ var (
 	pLevel  int32          // 0 = off
 	pShort  [NKinds]uint32 // probability (out of 65536) of a short pause at this kind
 	pLong   uint32         // probability (out of 65536) of a long pause at any kind
-	pLongMx uint32 = 3000
+	pLongMx uint32         = 3000
 )
 
 // SetPerturb configures perturbation. Must be called while no library code
@@ -110,22 +110,22 @@ func perturb(k Kind) {
 
 // ---- sync/atomic functions ----
 
-func AddInt32(p *int32, d int32) int32       { point(KAdd); return atomic.AddInt32(p, d) }
-func AddInt64(p *int64, d int64) int64       { point(KAdd); return atomic.AddInt64(p, d) }
-func AddUint32(p *uint32, d uint32) uint32   { point(KAdd); return atomic.AddUint32(p, d) }
-func AddUint64(p *uint64, d uint64) uint64   { point(KAdd); return atomic.AddUint64(p, d) }
+func AddInt32(p *int32, d int32) int32         { point(KAdd); return atomic.AddInt32(p, d) }
+func AddInt64(p *int64, d int64) int64         { point(KAdd); return atomic.AddInt64(p, d) }
+func AddUint32(p *uint32, d uint32) uint32     { point(KAdd); return atomic.AddUint32(p, d) }
+func AddUint64(p *uint64, d uint64) uint64     { point(KAdd); return atomic.AddUint64(p, d) }
 func AddUintptr(p *uintptr, d uintptr) uintptr { point(KAdd); return atomic.AddUintptr(p, d) }
 
-func AndInt32(p *int32, m int32) int32       { point(KAdd); return atomic.AndInt32(p, m) }
-func AndInt64(p *int64, m int64) int64       { point(KAdd); return atomic.AndInt64(p, m) }
-func AndUint32(p *uint32, m uint32) uint32   { point(KAdd); return atomic.AndUint32(p, m) }
-func AndUint64(p *uint64, m uint64) uint64   { point(KAdd); return atomic.AndUint64(p, m) }
+func AndInt32(p *int32, m int32) int32         { point(KAdd); return atomic.AndInt32(p, m) }
+func AndInt64(p *int64, m int64) int64         { point(KAdd); return atomic.AndInt64(p, m) }
+func AndUint32(p *uint32, m uint32) uint32     { point(KAdd); return atomic.AndUint32(p, m) }
+func AndUint64(p *uint64, m uint64) uint64     { point(KAdd); return atomic.AndUint64(p, m) }
 func AndUintptr(p *uintptr, m uintptr) uintptr { point(KAdd); return atomic.AndUintptr(p, m) }
-func OrInt32(p *int32, m int32) int32        { point(KAdd); return atomic.OrInt32(p, m) }
-func OrInt64(p *int64, m int64) int64        { point(KAdd); return atomic.OrInt64(p, m) }
-func OrUint32(p *uint32, m uint32) uint32    { point(KAdd); return atomic.OrUint32(p, m) }
-func OrUint64(p *uint64, m uint64) uint64    { point(KAdd); return atomic.OrUint64(p, m) }
-func OrUintptr(p *uintptr, m uintptr) uintptr { point(KAdd); return atomic.OrUintptr(p, m) }
+func OrInt32(p *int32, m int32) int32          { point(KAdd); return atomic.OrInt32(p, m) }
+func OrInt64(p *int64, m int64) int64          { point(KAdd); return atomic.OrInt64(p, m) }
+func OrUint32(p *uint32, m uint32) uint32      { point(KAdd); return atomic.OrUint32(p, m) }
+func OrUint64(p *uint64, m uint64) uint64      { point(KAdd); return atomic.OrUint64(p, m) }
+func OrUintptr(p *uintptr, m uintptr) uintptr  { point(KAdd); return atomic.OrUintptr(p, m) }
 
 func CompareAndSwapInt32(p *int32, o, n int32) bool {
 	point(KCAS)
@@ -164,28 +164,32 @@ func CompareAndSwapPointer(p *unsafe.Pointer, o, n unsafe.Pointer) bool {
 	return ok
 }
 
-func LoadInt32(p *int32) int32                   { point(KLoad); return atomic.LoadInt32(p) }
-func LoadInt64(p *int64) int64                   { point(KLoad); return atomic.LoadInt64(p) }
-func LoadUint32(p *uint32) uint32                { point(KLoad); return atomic.LoadUint32(p) }
-func LoadUint64(p *uint64) uint64                { point(KLoad); return atomic.LoadUint64(p) }
-func LoadUintptr(p *uintptr) uintptr             { point(KLoad); return atomic.LoadUintptr(p) }
+func LoadInt32(p *int32) int32                     { point(KLoad); return atomic.LoadInt32(p) }
+func LoadInt64(p *int64) int64                     { point(KLoad); return atomic.LoadInt64(p) }
+func LoadUint32(p *uint32) uint32                  { point(KLoad); return atomic.LoadUint32(p) }
+func LoadUint64(p *uint64) uint64                  { point(KLoad); return atomic.LoadUint64(p) }
+func LoadUintptr(p *uintptr) uintptr               { point(KLoad); return atomic.LoadUintptr(p) }
 func LoadPointer(p *unsafe.Pointer) unsafe.Pointer { point(KLoad); return atomic.LoadPointer(p) }
 
-func StoreInt32(p *int32, v int32)       { point(KStore); atomic.StoreInt32(p, v); point(KAfterStore) }
-func StoreInt64(p *int64, v int64)       { point(KStore); atomic.StoreInt64(p, v); point(KAfterStore) }
-func StoreUint32(p *uint32, v uint32)    { point(KStore); atomic.StoreUint32(p, v); point(KAfterStore) }
-func StoreUint64(p *uint64, v uint64)    { point(KStore); atomic.StoreUint64(p, v); point(KAfterStore) }
-func StoreUintptr(p *uintptr, v uintptr) { point(KStore); atomic.StoreUintptr(p, v); point(KAfterStore) }
+func StoreInt32(p *int32, v int32)    { point(KStore); atomic.StoreInt32(p, v); point(KAfterStore) }
+func StoreInt64(p *int64, v int64)    { point(KStore); atomic.StoreInt64(p, v); point(KAfterStore) }
+func StoreUint32(p *uint32, v uint32) { point(KStore); atomic.StoreUint32(p, v); point(KAfterStore) }
+func StoreUint64(p *uint64, v uint64) { point(KStore); atomic.StoreUint64(p, v); point(KAfterStore) }
+func StoreUintptr(p *uintptr, v uintptr) {
+	point(KStore)
+	atomic.StoreUintptr(p, v)
+	point(KAfterStore)
+}
 func StorePointer(p *unsafe.Pointer, v unsafe.Pointer) {
 	point(KStore)
 	atomic.StorePointer(p, v)
 	point(KAfterStore)
 }
 
-func SwapInt32(p *int32, v int32) int32       { point(KSwap); return atomic.SwapInt32(p, v) }
-func SwapInt64(p *int64, v int64) int64       { point(KSwap); return atomic.SwapInt64(p, v) }
-func SwapUint32(p *uint32, v uint32) uint32   { point(KSwap); return atomic.SwapUint32(p, v) }
-func SwapUint64(p *uint64, v uint64) uint64   { point(KSwap); return atomic.SwapUint64(p, v) }
+func SwapInt32(p *int32, v int32) int32         { point(KSwap); return atomic.SwapInt32(p, v) }
+func SwapInt64(p *int64, v int64) int64         { point(KSwap); return atomic.SwapInt64(p, v) }
+func SwapUint32(p *uint32, v uint32) uint32     { point(KSwap); return atomic.SwapUint32(p, v) }
+func SwapUint64(p *uint64, v uint64) uint64     { point(KSwap); return atomic.SwapUint64(p, v) }
 func SwapUintptr(p *uintptr, v uintptr) uintptr { point(KSwap); return atomic.SwapUintptr(p, v) }
 func SwapPointer(p *unsafe.Pointer, v unsafe.Pointer) unsafe.Pointer {
 	point(KSwap)
@@ -196,9 +200,9 @@ func SwapPointer(p *unsafe.Pointer, v unsafe.Pointer) unsafe.Pointer {
 
 type Value struct{ v atomic.Value }
 
-func (x *Value) Load() any       { point(KLoad); return x.v.Load() }
-func (x *Value) Store(v any)     { point(KStore); x.v.Store(v); point(KAfterStore) }
-func (x *Value) Swap(v any) any  { point(KSwap); return x.v.Swap(v) }
+func (x *Value) Load() any      { point(KLoad); return x.v.Load() }
+func (x *Value) Store(v any)    { point(KStore); x.v.Store(v); point(KAfterStore) }
+func (x *Value) Swap(v any) any { point(KSwap); return x.v.Swap(v) }
 func (x *Value) CompareAndSwap(o, n any) bool {
 	point(KCAS)
 	ok := x.v.CompareAndSwap(o, n)
@@ -208,12 +212,12 @@ func (x *Value) CompareAndSwap(o, n any) bool {
 
 type Int32 struct{ v atomic.Int32 }
 
-func (x *Int32) Load() int32           { point(KLoad); return x.v.Load() }
-func (x *Int32) Store(v int32)         { point(KStore); x.v.Store(v); point(KAfterStore) }
-func (x *Int32) Swap(v int32) int32    { point(KSwap); return x.v.Swap(v) }
-func (x *Int32) Add(d int32) int32     { point(KAdd); return x.v.Add(d) }
-func (x *Int32) And(m int32) int32     { point(KAdd); return x.v.And(m) }
-func (x *Int32) Or(m int32) int32      { point(KAdd); return x.v.Or(m) }
+func (x *Int32) Load() int32        { point(KLoad); return x.v.Load() }
+func (x *Int32) Store(v int32)      { point(KStore); x.v.Store(v); point(KAfterStore) }
+func (x *Int32) Swap(v int32) int32 { point(KSwap); return x.v.Swap(v) }
+func (x *Int32) Add(d int32) int32  { point(KAdd); return x.v.Add(d) }
+func (x *Int32) And(m int32) int32  { point(KAdd); return x.v.And(m) }
+func (x *Int32) Or(m int32) int32   { point(KAdd); return x.v.Or(m) }
 func (x *Int32) CompareAndSwap(o, n int32) bool {
 	point(KCAS)
 	ok := x.v.CompareAndSwap(o, n)
@@ -223,12 +227,12 @@ func (x *Int32) CompareAndSwap(o, n int32) bool {
 
 type Int64 struct{ v atomic.Int64 }
 
-func (x *Int64) Load() int64           { point(KLoad); return x.v.Load() }
-func (x *Int64) Store(v int64)         { point(KStore); x.v.Store(v); point(KAfterStore) }
-func (x *Int64) Swap(v int64) int64    { point(KSwap); return x.v.Swap(v) }
-func (x *Int64) Add(d int64) int64     { point(KAdd); return x.v.Add(d) }
-func (x *Int64) And(m int64) int64     { point(KAdd); return x.v.And(m) }
-func (x *Int64) Or(m int64) int64      { point(KAdd); return x.v.Or(m) }
+func (x *Int64) Load() int64        { point(KLoad); return x.v.Load() }
+func (x *Int64) Store(v int64)      { point(KStore); x.v.Store(v); point(KAfterStore) }
+func (x *Int64) Swap(v int64) int64 { point(KSwap); return x.v.Swap(v) }
+func (x *Int64) Add(d int64) int64  { point(KAdd); return x.v.Add(d) }
+func (x *Int64) And(m int64) int64  { point(KAdd); return x.v.And(m) }
+func (x *Int64) Or(m int64) int64   { point(KAdd); return x.v.Or(m) }
 func (x *Int64) CompareAndSwap(o, n int64) bool {
 	point(KCAS)
 	ok := x.v.CompareAndSwap(o, n)
@@ -238,12 +242,12 @@ func (x *Int64) CompareAndSwap(o, n int64) bool {
 
 type Uint32 struct{ v atomic.Uint32 }
 
-func (x *Uint32) Load() uint32          { point(KLoad); return x.v.Load() }
-func (x *Uint32) Store(v uint32)        { point(KStore); x.v.Store(v); point(KAfterStore) }
-func (x *Uint32) Swap(v uint32) uint32  { point(KSwap); return x.v.Swap(v) }
-func (x *Uint32) Add(d uint32) uint32   { point(KAdd); return x.v.Add(d) }
-func (x *Uint32) And(m uint32) uint32   { point(KAdd); return x.v.And(m) }
-func (x *Uint32) Or(m uint32) uint32    { point(KAdd); return x.v.Or(m) }
+func (x *Uint32) Load() uint32         { point(KLoad); return x.v.Load() }
+func (x *Uint32) Store(v uint32)       { point(KStore); x.v.Store(v); point(KAfterStore) }
+func (x *Uint32) Swap(v uint32) uint32 { point(KSwap); return x.v.Swap(v) }
+func (x *Uint32) Add(d uint32) uint32  { point(KAdd); return x.v.Add(d) }
+func (x *Uint32) And(m uint32) uint32  { point(KAdd); return x.v.And(m) }
+func (x *Uint32) Or(m uint32) uint32   { point(KAdd); return x.v.Or(m) }
 func (x *Uint32) CompareAndSwap(o, n uint32) bool {
 	point(KCAS)
 	ok := x.v.CompareAndSwap(o, n)
@@ -253,12 +257,12 @@ func (x *Uint32) CompareAndSwap(o, n uint32) bool {
 
 type Uint64 struct{ v atomic.Uint64 }
 
-func (x *Uint64) Load() uint64          { point(KLoad); return x.v.Load() }
-func (x *Uint64) Store(v uint64)        { point(KStore); x.v.Store(v); point(KAfterStore) }
-func (x *Uint64) Swap(v uint64) uint64  { point(KSwap); return x.v.Swap(v) }
-func (x *Uint64) Add(d uint64) uint64   { point(KAdd); return x.v.Add(d) }
-func (x *Uint64) And(m uint64) uint64   { point(KAdd); return x.v.And(m) }
-func (x *Uint64) Or(m uint64) uint64    { point(KAdd); return x.v.Or(m) }
+func (x *Uint64) Load() uint64         { point(KLoad); return x.v.Load() }
+func (x *Uint64) Store(v uint64)       { point(KStore); x.v.Store(v); point(KAfterStore) }
+func (x *Uint64) Swap(v uint64) uint64 { point(KSwap); return x.v.Swap(v) }
+func (x *Uint64) Add(d uint64) uint64  { point(KAdd); return x.v.Add(d) }
+func (x *Uint64) And(m uint64) uint64  { point(KAdd); return x.v.And(m) }
+func (x *Uint64) Or(m uint64) uint64   { point(KAdd); return x.v.Or(m) }
 func (x *Uint64) CompareAndSwap(o, n uint64) bool {
 	point(KCAS)
 	ok := x.v.CompareAndSwap(o, n)
@@ -268,10 +272,10 @@ func (x *Uint64) CompareAndSwap(o, n uint64) bool {
 
 type Uintptr struct{ v atomic.Uintptr }
 
-func (x *Uintptr) Load() uintptr           { point(KLoad); return x.v.Load() }
-func (x *Uintptr) Store(v uintptr)         { point(KStore); x.v.Store(v); point(KAfterStore) }
-func (x *Uintptr) Swap(v uintptr) uintptr  { point(KSwap); return x.v.Swap(v) }
-func (x *Uintptr) Add(d uintptr) uintptr   { point(KAdd); return x.v.Add(d) }
+func (x *Uintptr) Load() uintptr          { point(KLoad); return x.v.Load() }
+func (x *Uintptr) Store(v uintptr)        { point(KStore); x.v.Store(v); point(KAfterStore) }
+func (x *Uintptr) Swap(v uintptr) uintptr { point(KSwap); return x.v.Swap(v) }
+func (x *Uintptr) Add(d uintptr) uintptr  { point(KAdd); return x.v.Add(d) }
 func (x *Uintptr) CompareAndSwap(o, n uintptr) bool {
 	point(KCAS)
 	ok := x.v.CompareAndSwap(o, n)
@@ -281,9 +285,9 @@ func (x *Uintptr) CompareAndSwap(o, n uintptr) bool {
 
 type Bool struct{ v atomic.Bool }
 
-func (x *Bool) Load() bool          { point(KLoad); return x.v.Load() }
-func (x *Bool) Store(v bool)        { point(KStore); x.v.Store(v); point(KAfterStore) }
-func (x *Bool) Swap(v bool) bool    { point(KSwap); return x.v.Swap(v) }
+func (x *Bool) Load() bool       { point(KLoad); return x.v.Load() }
+func (x *Bool) Store(v bool)     { point(KStore); x.v.Store(v); point(KAfterStore) }
+func (x *Bool) Swap(v bool) bool { point(KSwap); return x.v.Swap(v) }
 func (x *Bool) CompareAndSwap(o, n bool) bool {
 	point(KCAS)
 	ok := x.v.CompareAndSwap(o, n)
@@ -293,9 +297,9 @@ func (x *Bool) CompareAndSwap(o, n bool) bool {
 
 type Pointer[T any] struct{ v atomic.Pointer[T] }
 
-func (x *Pointer[T]) Load() *T        { point(KLoad); return x.v.Load() }
-func (x *Pointer[T]) Store(v *T)      { point(KStore); x.v.Store(v); point(KAfterStore) }
-func (x *Pointer[T]) Swap(v *T) *T    { point(KSwap); return x.v.Swap(v) }
+func (x *Pointer[T]) Load() *T     { point(KLoad); return x.v.Load() }
+func (x *Pointer[T]) Store(v *T)   { point(KStore); x.v.Store(v); point(KAfterStore) }
+func (x *Pointer[T]) Swap(v *T) *T { point(KSwap); return x.v.Swap(v) }
 func (x *Pointer[T]) CompareAndSwap(o, n *T) bool {
 	point(KCAS)
 	ok := x.v.CompareAndSwap(o, n)
@@ -479,9 +483,9 @@ func Sleep(d time.Duration) {
 // Ticker mirrors time.Ticker. With the virtual clock it is a fake registered
 // with the harness, which alone delivers ticks.
 type Ticker struct {
-	C      <-chan time.Time
-	real   *time.Ticker
-	fake   *FakeTicker
+	C    <-chan time.Time
+	real *time.Ticker
+	fake *FakeTicker
 }
 
 func NewTicker(d time.Duration) *Ticker {
